@@ -256,8 +256,8 @@ fn apply_bsd0_patch(patch: &PatchFile, base_data: &[u8]) -> Result<Vec<u8>> {
 
         // Step 3: Adjust old offset (signed!)
         let old_move_length = if old_move_length_raw & 0x80000000 != 0 {
-            // Negative offset
-            let neg_val = 0x80000000u32.wrapping_sub(old_move_length_raw);
+            // Negative offset: sign-magnitude, the low 31 bits are the distance to move back
+            let neg_val = old_move_length_raw & 0x7FFF_FFFF;
             old_offset = old_offset.saturating_sub(neg_val as usize);
             0
         } else {
